@@ -67,9 +67,30 @@ func init() {
 			if tier == "thorough" {
 				add(qast.TreeUnits("tree|full|2|fold", len(treeSet("full1")), 60), 4)
 			}
+			add([]string{"groups"}, 2)
 			return us
 		},
 		Run: func(w *core.Worker, tier, unit string) {
+			if unit == "groups" {
+				// ~ and ^ anywhere inside a field's value group (where the parser may turn the group
+				// into a value list or push the field inwards): the renderers must still refuse
+				T := func(v qast.Value) *qast.Node { return qast.Lf(qast.Leaf{Kind: qast.LTerm, Val: v}) }
+				leaves := []*qast.Node{T(qast.W("x")), T(qast.W("y")), T(qast.Q("q r")), T(qast.I("5"))}
+				forms := []qast.UForm{{Op: qast.ONot}, {Op: qast.OFuzzy}, {Op: qast.OFuzzy, Arg: "2"}, {Op: qast.OBoost}, {Op: qast.OBoost, Arg: "2"}}
+				for _, sub := range qast.AllTreesU(leaves, forms, 2) {
+					ops := nodeOps(sub)
+					if !ops["FUZZY"] && !ops["BOOST"] {
+						continue
+					}
+					g := qast.Lf(qast.Leaf{Kind: qast.LGroup, Field: "f", Sub: sub})
+					for _, t := range []*qast.Node{g, qast.Bin(qast.OAnd, g, qast.Lf(qast.Leaf{Kind: qast.LEq, Field: "b", Val: qast.W("c")}))} {
+						txt := qast.Text(t, nil)
+						w.Do(core.Case{Kind: "fold", In: core.BStr(txt), In2: "unsupported"})
+						w.Do(core.Case{Kind: "fold", In: core.BStr(txt), In2: "unsupported", DF: "D"})
+					}
+				}
+				return
+			}
 			leaves, sub := treeUnitSets(unit)
 			_, eu := stripTreeUnit(unit)
 			configs := []string{"trace", "readme"}
@@ -110,7 +131,7 @@ func init() {
 		Eval:   c15Eval,
 		Shrink: c15Shrink,
 		Rule: "configurations {all-tracing map, each single-operator override (19), each single-operator removal (19), the README construction} x trees of TREE(L_full,1) ∪ TREE(L_small,2) (thorough: TREE(L_full,2)), " +
-			"each obtained both by Parse and directly through the public constructors; plus ToPostgres/ToParameterizedPostgres on every text containing ~ or ^; non-trivial = Render succeeded; distinct = distinct outputs",
+			"each obtained both by Parse and directly through the public constructors; plus ToPostgres/ToParameterizedPostgres on every text containing ~ or ^, including every value group f:(T) with T in TREE({x,y,phrase,5},2) over NOT ~ ~2 ^ ^2 AND OR; non-trivial = Render succeeded; distinct = distinct outputs",
 		Assumptions: []string{"how raw leaf values are serialised ('str', \"col\", numbers) is not part of this property and is not checked",
 			"the order in which independent children are rendered is not constrained, only children-before-parent"},
 		Bounds: func(tier string) map[string]any {
